@@ -80,6 +80,7 @@ type dbRecorder struct {
 	opening      int32 // events emitted while Open() runs are recovery steps, summarized by the "open" line
 	compacting   int32 // a compaction cycle is between selection and reflect (its private readers are open)
 	compactEpoch int32
+	counts       map[string]int // hook events seen so far, by name
 }
 
 func (r *dbRecorder) emit(m M) {
@@ -141,6 +142,12 @@ func gensOfNames(names []string) []int {
 
 // sink translates hook events into trace lines (projection only - no judgement)
 func (r *dbRecorder) sink(name string, f map[string]any) {
+	r.mu.Lock()
+	if r.counts == nil {
+		r.counts = map[string]int{}
+	}
+	r.counts[name]++
+	r.mu.Unlock()
 	if atomic.LoadInt32(&r.opening) != 0 {
 		r.emit(M{"t": "note", "name": "recovery:" + name})
 		return
@@ -388,6 +395,8 @@ func (x *dbExec) step(db *simpledb.DB, s dbStep, g int) (*simpledb.DB, error) {
 		x.argClassCall(db, s, g)
 	case "crashcheck":
 		x.crashCheck(db, s)
+	case "window":
+		x.window(db, s)
 	case "failwrites":
 		// from now on, stream writers whose directory matches fail their pos-th data / index append (C11)
 		st := s
@@ -400,9 +409,13 @@ func (x *dbExec) step(db *simpledb.DB, s dbStep, g int) (*simpledb.DB, error) {
 			case "data":
 				w.VerifWrapWriters(func(d recordio.WriterI) recordio.WriterI { return &countingFailData{WriterI: d, at: st.Pos, hit: hit} }, nil)
 			case "dataclose":
-				w.VerifWrapWriters(func(d recordio.WriterI) recordio.WriterI { return &countingFailData{WriterI: d, at: -1, hit: hit, failClose: true} }, nil)
+				w.VerifWrapWriters(func(d recordio.WriterI) recordio.WriterI {
+					return &countingFailData{WriterI: d, at: -1, hit: hit, failClose: true}
+				}, nil)
 			case "indexclose":
-				w.VerifWrapWriters(nil, func(i rProto.WriterI) rProto.WriterI { return &countingFailIndex{WriterI: i, at: -1, hit: hit, failClose: true} })
+				w.VerifWrapWriters(nil, func(i rProto.WriterI) rProto.WriterI {
+					return &countingFailIndex{WriterI: i, at: -1, hit: hit, failClose: true}
+				})
 			default:
 				w.VerifWrapWriters(nil, func(i rProto.WriterI) rProto.WriterI { return &countingFailIndex{WriterI: i, at: st.Pos, hit: hit} })
 			}
@@ -626,4 +639,156 @@ func moduleGoroutines() int {
 		}
 	}
 	return n
+}
+
+// ---- deterministic interleavings through the scheduling gates (C05): the distinguishing schedules of SimpleDB.tla's concurrent model
+// (install between the two reads of a Get; reflect while a Get holds the read lock; second rotation while the first flush is running).
+// A step the specification says is NOT enabled is attempted and must stay blocked until its enabler is released ("disabledness test").
+
+type gateCtl struct {
+	mu      sync.Mutex
+	hold    map[string]chan struct{}
+	arrived map[string]int
+}
+
+func (g *gateCtl) fn(point string) {
+	g.mu.Lock()
+	ch, ok := g.hold[point]
+	if ok {
+		g.arrived[point]++
+	}
+	g.mu.Unlock()
+	if ok {
+		<-ch
+	}
+}
+
+func (g *gateCtl) holdPoint(p string) {
+	g.mu.Lock()
+	g.hold[p] = make(chan struct{})
+	g.mu.Unlock()
+}
+
+func (g *gateCtl) release(p string) {
+	g.mu.Lock()
+	ch, ok := g.hold[p]
+	delete(g.hold, p)
+	g.mu.Unlock()
+	if ok {
+		close(ch)
+	}
+}
+
+func (g *gateCtl) await(p string, n int, d time.Duration) bool {
+	dl := time.Now().Add(d)
+	for time.Now().Before(dl) {
+		g.mu.Lock()
+		a := g.arrived[p]
+		g.mu.Unlock()
+		if a >= n {
+			return true
+		}
+		time.Sleep(200 * time.Microsecond)
+	}
+	return false
+}
+
+// stays blocked for `d` (and at least some scheduler yields)? true = still blocked
+func stillBlocked(done chan struct{}, d time.Duration) bool {
+	for i := 0; i < 50; i++ {
+		runtime.Gosched()
+	}
+	select {
+	case <-done:
+		return false
+	case <-time.After(d):
+		return true
+	}
+}
+
+func (r *dbRecorder) countOf(name string) int {
+	r.mu.Lock()
+	defer r.mu.Unlock()
+	return r.counts[name]
+}
+
+func (x *dbExec) window(db *simpledb.DB, s dbStep) {
+	rec := x.rec
+	ctl := &gateCtl{hold: map[string]chan struct{}{}, arrived: map[string]int{}}
+	old := simpledb.VerifGateFn
+	simpledb.VerifGateFn = ctl.fn
+	defer func() { simpledb.VerifGateFn = old }()
+	spawn := func(f func()) chan struct{} {
+		done := make(chan struct{})
+		go func() { defer close(done); f() }()
+		return done
+	}
+	note := func(what, by string, still bool) {
+		rec.emit(M{"t": "blocked", "what": what, "by": by, "still": still})
+	}
+	const wait = 5 * time.Second
+	switch s.V {
+	case "install-between-reads":
+		x.step(db, dbStep{Op: "put", K: 0, V: "w1a", Pad: 5}, 0)
+		x.step(db, dbStep{Op: "put", K: 1, V: "w1b", Pad: 5}, 0)
+		ctl.holdPoint("flush.written")
+		r := spawn(func() { db.VerifRotate() })
+		if !ctl.await("flush.written", 1, wait) {
+			rec.emit(M{"t": "note", "name": "window not reached: flush.written"})
+			ctl.release("flush.written")
+			<-r
+			return
+		}
+		<-r
+		ctl.holdPoint("get.between")
+		installs := rec.countOf("install")
+		g := spawn(func() { x.get(db, 0, 1, "bytes") })
+		ctl.await("get.between", 1, wait)
+		ctl.release("flush.written")
+		for i := 0; i < 5000 && rec.countOf("install") == installs; i++ {
+			time.Sleep(200 * time.Microsecond)
+		}
+		rec.emit(M{"t": "note", "name": fmt.Sprintf("install landed between the two reads: %v", rec.countOf("install") > installs)})
+		ctl.release("get.between")
+		<-g
+	case "reflect-while-get":
+		for t := 0; t < 2; t++ {
+			x.step(db, dbStep{Op: "put", K: t, V: fmt.Sprintf("w2%c", 'a'+t), Pad: 5}, 0)
+			x.step(db, dbStep{Op: "rotate"}, 0)
+			x.step(db, dbStep{Op: "barrier"}, 0)
+		}
+		ctl.holdPoint("get.between")
+		g := spawn(func() { x.get(db, 0, 1, "bytes") })
+		if !ctl.await("get.between", 1, wait) {
+			ctl.release("get.between")
+			<-g
+			return
+		}
+		c := spawn(func() { db.VerifCompactOnce() })
+		// the compaction may merge, but its reflect needs the database write lock, which the reader holds
+		note("reflect", "get", stillBlocked(c, 60*time.Millisecond) && rec.countOf("reflect.done") == 0)
+		ctl.release("get.between")
+		<-g
+		<-c
+	case "second-rotation-waits":
+		x.step(db, dbStep{Op: "put", K: 0, V: "w3a", Pad: 5}, 0)
+		ctl.holdPoint("flush.written")
+		r1 := spawn(func() { db.VerifRotate() })
+		if !ctl.await("flush.written", 1, wait) {
+			ctl.release("flush.written")
+			<-r1
+			return
+		}
+		<-r1
+		x.step(db, dbStep{Op: "put", K: 1, V: "w3b", Pad: 5}, 0)
+		r2 := spawn(func() { db.VerifRotate() })
+		// the second hand-off must wait until the flusher is back at the channel, i.e. after the first table is installed
+		note("handoff", "flush-in-progress", stillBlocked(r2, 60*time.Millisecond))
+		g := spawn(func() { x.get(db, 0, 2, "bytes") })
+		// and while the rotation holds the write lock no reader may run (the first store is in neither memstore nor table list)
+		note("get", "rotation-holding-lock", stillBlocked(g, 60*time.Millisecond))
+		ctl.release("flush.written")
+		<-r2
+		<-g
+	}
 }
